@@ -2,6 +2,8 @@
 through the protocol (`ctx.corr`, which also queues the line for the Lean model), applies the
 property's own independent oracle (`ctx.fail`) and counts coverage (`ctx.case`)."""
 import io
+import os
+import sys
 import contextlib
 import itertools
 import math
@@ -264,7 +266,7 @@ def C06(ctx):
                 if c:
                     c = gen.apply_edit(c, gen.rand_edit(rng, c))
             variants.append(("edited", c))
-            variants.append(("foreign", w[:rng.randrange(len(w) + 1)] + rng.choice("NXacgtU*\u03a9\u00e9") + w[rng.randrange(len(w) + 1):]))
+            variants.append(("foreign", w[:rng.randrange(len(w) + 1)] + rng.choice("NXacgtU*\u03a9\u00e90123401234567_.") + w[rng.randrange(len(w) + 1):]))
         variants.append(("random", gen.rand_dna(rng, rng.choice([1, 2, 4, 8]))))
         for kind, s in variants:
             walk = g.is_walk(v, s)
@@ -367,7 +369,10 @@ def C07(ctx):
         # long strands: the ascent-position sum passes 2^16, 2^31 and 2^32 (narrow accumulators), with check lengths
         # whose modulus 4^(n-1) exceeds those powers
         for L in (700, 3000, 120000, 160000):
-            for s in (gen.rand_dna(rng, L), ("AC" * L)[:L]):
+            forced = list(gen.rand_dna(rng, L))
+            for i_ in range(0, L, 256):          # a non-A at every multiple of 256: block-wise scans show at their borders
+                forced[i_] = rng.choice("CGT")
+            for s in (gen.rand_dna(rng, L), ("AC" * L)[:L], "".join(forced)):
                 for n in (10, 17, 33):
                     one(s, n)
     out = ctx.corr("vt ACGTN 3")
@@ -393,6 +398,11 @@ def rand_cfg(rng, k, allow_bad=False):
     if rng.random() < 0.65:
         lo = rng.choice([0.0, 0.1, 0.2, 0.25, 0.28, 0.3, 0.4, 0.5, 0.6, 0.8])
         hi = rng.choice([0.5, 0.6, 0.7, 0.72, 0.75, 0.8, 0.9, 1.0])
+        if rng.random() < 0.35 and k >= 1:
+            # bounds right at, just below and just above an attainable fraction j/k (where a count comparison done in another
+            # unit - percent, rounded, floor-divided - decides differently)
+            near = lambda: min(1.0, max(0.0, rng.randrange(0, k + 1) / k + rng.choice([0.0, 0.0, 1e-9, -1e-9, 0.004, -0.004, 0.0067, -0.0067, 0.01, -0.01])))
+            lo, hi = near(), near()
         if lo > hi:
             lo, hi = hi, lo
         gc = [lo, hi]
@@ -600,6 +610,12 @@ def C03(ctx):
         S = one(k, mask, t, rng.choice([bool, int]))
         if rng.random() < 0.3:
             extra(k, mask, t, S)
+    # threshold 1 on half-empty masks of order 3 and 4: where the clean-up cascade runs for several waves with several
+    # starved vertices per wave (a cascade that handles only one of them shows on about 1-3 % of these masks)
+    for it in range(ctx.n(90, 2500)):
+        k = rng.choice([3, 4, 4])
+        mask = gen.rand_mask(rng, k, rng.choice([0.4, 0.45, 0.5]) if k == 3 else rng.choice([0.3, 0.35, 0.4]))
+        one(k, mask, 1, rng.choice([bool, int]))
 
 
 # =============================================================================== C04
@@ -609,6 +625,9 @@ def C04(ctx):
         k = rng.choice([1, 2, 2, 3] if not ctx.thorough else [2, 3, 3, 4, 5])
         t = rng.choice([1, 1, 1, 2, 2, 3, 4])
         p = {1: rng.choice([0.3, 0.5, 0.7]), 2: rng.choice([0.6, 0.8, 0.95]), 3: 0.95, 4: 1.0}[t]
+        if t == 1 and rng.random() < 0.35:
+            k = rng.choice([3, 4, 4])          # half-empty masks of order 3 / 4: multi-wave clean-up cascades
+            p = rng.choice([0.4, 0.45, 0.5]) if k == 3 else rng.choice([0.3, 0.35, 0.4])
         mask = gen.rand_mask(rng, k, p)
         out, vs, g = impl_coding_graph(ctx, k, mask, t)
         if g is None:
@@ -758,8 +777,9 @@ def C09(ctx):
             for chkkind in ("none", "right", "wrong"):
                 if chkkind != "none" and rng.random() < 0.5:
                     continue
-                chk = {"none": "None", "right": oracle.vt_ref(w if len(w) >= k else s, 4),
-                       "wrong": "G" + oracle.vt_ref(s, 4)[1:] if oracle.vt_ref(s, 4)[0] != "G" else "T" + oracle.vt_ref(s, 4)[1:]}[chkkind]
+                cl = rng.choice([1, 1, 2, 4, 4, 7])       # (a check of ONE symbol is the flag alone: still a check)
+                chk = {"none": "None", "right": oracle.vt_ref(w if len(w) >= k else s, cl),
+                       "wrong": "G" + oracle.vt_ref(s, cl)[1:] if oracle.vt_ref(s, cl)[0] != "G" else "T" + oracle.vt_ref(s, cl)[1:]}[chkkind]
                 indel = rng.randrange(2)
                 heap = rng.choice([0, 1, 10, 1000, 5000])
                 key = rep_line(g, s, v, chk, indel, heap)
@@ -852,6 +872,18 @@ class KwFilter(BF.DefaultBioFilter):
         return bool(self.table[gen.kmer_idx(dna_string)] == "1")
 
 
+class LooseVerdictFilter(proto.TableFilter):
+    """a user-defined filter whose verdicts are truthy / falsy objects instead of booleans."""
+
+    def __init__(self, table, pair):
+        super().__init__(table)
+        self.pair = pair
+
+    def valid(self, dna_string):
+        self.asked.append(dna_string)
+        return self.pair[0] if self.table[gen.kmer_idx(dna_string)] == "1" else self.pair[1]
+
+
 def C11(ctx):
     rng = ctx.rng
     for it in range(ctx.n(200, 3000)):
@@ -877,6 +909,9 @@ def C11(ctx):
                 ones = set(rng.sample(range(n), rng.choice([1, 1, 2, 3])))
                 table = "".join("1" if i in ones else "0" for i in range(n))
             flt = (KwFilter if kind == "kw" else proto.TableFilter)(table)
+            if kind == "table" and rng.random() < 0.35:
+                # verdicts that are truthy / falsy without being booleans (a filter that falls off its end returns None)
+                flt = LooseVerdictFilter(table, rng.choice([(1, 0), (True, None), ("yes", ""), (1, None)]))
             if rng.random() < 0.4:
                 # attributes a user-defined filter may happen to carry say nothing about which strings it is asked
                 flt.observed_length = k + rng.choice([-1, 1, 2])
@@ -1669,6 +1704,13 @@ def C16(ctx):
             bits_case(oracle.bits_be(pre, L0))
         else:
             dna_case(gen.kmer(pre, L0))
+    # every length around 100 .. 215 with the TOP bits set (the decimal rendering gains a digit exactly there: a digit
+    # buffer sized from the bit count is one short for some lengths), and all-ones
+    for n_ in list(range(95, 216))[ctx.part::ctx.nparts]:
+        bits_case([1] * n_)
+        top = rng.choice([3, 5, 8])
+        bits_case([1] * top + [rng.randrange(2) for _ in range(n_ - top)])
+        dna_case("T" * rng.choice([33, 35, 63, 65, 67, 129]) if n_ % 10 == 0 else gen.rand_dna(rng, n_ // 2 + 1))
     if ctx.part == 0:
         # string-typed path beyond CPython's 4300-digit int<->str limit (value 4^7150 - 1 has 4305 digits)
         W = 7150
@@ -2028,6 +2070,48 @@ def canon(x):
 def C20(ctx):
     rng = ctx.rng
     import copy
+    # progress output on DEGENERATE sizes (nothing to iterate over): turning it on must not raise nor change the result
+    if ctx.part == 0:
+        g0 = gen.complete(2)
+        A0 = np.array(g0.rows(), dtype=int)
+        empty = np.array([], dtype=int)
+        degenerate = {
+            "capacity, maximum_iteration=0": lambda vb: GZ.approximate_capacity(A0, maximum_iteration=0, verbose=vb),
+            "capacity, maximum_iteration=1": lambda vb: GZ.approximate_capacity(A0, maximum_iteration=1, verbose=vb),
+            "encode, empty message": lambda vb: SW.encode(empty, A0, 1, verbose=vb),
+            "encode fast, empty message": lambda vb: SW.encode(empty, A0, 1, is_faster=True, verbose=vb),
+            "decode, empty strand, 0 bits": lambda vb: SW.decode("", 0, A0, 1, verbose=vb),
+            "decode fast, empty strand, 0 bits": lambda vb: SW.decode("", 0, A0, 1, is_faster=True, verbose=vb),
+            "bit_to_number, empty": lambda vb: OP.bit_to_number([], verbose=vb),
+            "accessor_to_latter_map, no arcs": lambda vb: GZ.accessor_to_latter_map(-np.ones((16, 4), dtype=int), verbose=vb),
+            "latter_map_to_accessor, empty map": lambda vb: GZ.latter_map_to_accessor({}, 2, verbose=vb),
+            "complete accessor, k=1": lambda vb: GZ.get_complete_accessor(1, verbose=vb),
+        }
+        for name, fn in degenerate.items():
+            quiet = proto.guarded(lambda: canon(fn(False)), 60)
+            with contextlib.redirect_stdout(io.StringIO()):
+                loud = proto.guarded(lambda: canon(fn(True)), 60)
+            if quiet != loud:
+                ctx.fail("turning progress output on changes the result or raises (degenerate size)", call=name,
+                         quiet=str(quiet)[:200], verbose=str(loud)[:200])
+            ctx.case("verbose-degenerate " + name, True, "verbose-degenerate")
+        # COLD START: a call made first thing in a fresh interpreter must give what the model says (a call that only works
+        # after some other call has warmed up process-wide state fails here)
+        import subprocess
+        cold = ["n2b %s 140" % ("7" * 41), "n2d %s 70" % ("3" * 40), "div %s 4" % ("9" * 60), "d2n %s" % ("ACGT" * 20),
+                "n2b 1%s 200" % ("0" * 45), "mul %s 4" % ("8" * 50), "sub 1%s 3" % ("0" * 40), "add %s 9" % ("9" * 35)]
+        for line in cold:
+            code = "import sys; sys.path.insert(0, %r); import proto; print(proto.run_impl(%r))" % (os.path.dirname(os.path.abspath(__file__)), line)
+            try:
+                pr = subprocess.run([sys.executable, "-c", code], capture_output=True, text=True, timeout=120, env=dict(os.environ))
+                fresh = pr.stdout.strip().split("\n")[-1] if pr.returncode == 0 else "err CRASH " + pr.stderr[-200:]
+            except Exception as ex:  # noqa
+                fresh = "err " + type(ex).__name__
+            here = ctx.corr(line)
+            if fresh != here:
+                ctx.fail("a call made first thing in a fresh process returns something else than inside this process",
+                         line=line, fresh_process=fresh[:200], in_history=here[:200])
+            ctx.case("cold " + line, True, "cold-start")
     # messages whose raw buffers coincide although they are different messages (an int64 [1, 0] and the uint8 / int32 / bool
     # message with the same bytes): one after the other in one process
     for it in range(ctx.n(20, 300)):
